@@ -207,8 +207,18 @@ def run(prog: Program, res: Result, tier: str) -> None:
     ua = prog.fn(f"{MOD}:_get_UA_pairs")
     ut = utext(ua.node)
     inst = "_get_UA_pairs: pairs are combinations of _get_bonds(UA, AC)"
-    if "bonds = _get_bonds(UA, AC)" in ut and \
-            "itertools.combinations(bonds," in ut:
+    src_ok = False
+    for n_ in ast.walk(ua.node):
+        if isinstance(n_, ast.Assign) and isinstance(n_.value, ast.Call) and \
+                call_name(n_.value) == "_get_bonds" and isinstance(
+                n_.targets[0], ast.Name):
+            b_ = prog.bound_args(n_.value)
+            vals = sorted(norm(v) for v in (b_.values() if b_
+                                            else n_.value.args))
+            if vals == sorted(ua.params()[:2]) and re.search(
+                    rf"combinations\({n_.targets[0].id},", ut):
+                src_ok = True
+    if src_ok:
         res.ok("R-BO-PAIRS", inst, ua.loc())
     else:
         res.unrecognised("R-BO-PAIRS", inst, ua.loc(),
